@@ -143,8 +143,8 @@ type stubNode struct {
 	creation int64
 }
 
-func (s stubNode) Name() gen.Atom    { return s.name }
-func (s stubNode) Creation() int64   { return s.creation }
+func (s stubNode) Name() gen.Atom  { return s.name }
+func (s stubNode) Creation() int64 { return s.creation }
 func (s stubNode) Version() gen.Version {
 	return gen.Version{Name: "c16stub", Release: "1", License: gen.LicenseMIT}
 }
@@ -491,7 +491,7 @@ func childHS() {
 var hsHeaderErrs = []string{"malformed handshake packet", "mismatch handshake version", "too long handshake message"}
 
 func hsOne(ci int, cs caseSpec, idx int, a *agg) {
-	rng := hk.Rng("c16", cs.ID, fmt.Sprint(idx))
+	rng := inputRng(cs.ID, idx)
 	info := &callInfo{caseIdx: ci, caseID: cs.ID, idx: idx, marker: "handshake."}
 	logf := func(orig, m []byte) {
 		info.data = m
@@ -530,7 +530,8 @@ func hsOne(ci int, cs caseSpec, idx int, a *agg) {
 		site, stack := allocSiteSince()
 		mk("alloc-amplification/"+site, fmt.Sprintf("handshake exchange with a %d byte hostile message allocated %d bytes (bound %d)", len(res.mutated), res.allocd, allocBound(len(res.mutated))),
 			map[string]any{"alloc_stack": stack})
-		a.extra["expensive"]++
+		a.add("ALLOC OUT OF PROPORTION", true, 1)
+		leaveAfterExpensive(cs.ID, a)
 	}
 	terr := res.errS
 	if cs.Side == "" && !res.targetIsSrv {
@@ -591,7 +592,7 @@ func hsJobs() []job {
 		for i := k; i < len(cases); i += nj {
 			cs = append(cs, cases[i])
 		}
-		jobs = append(jobs, job{name: fmt.Sprintf("hs-%02d", k), mode: "hs", memKB: 512 << 10, wall: 10 * time.Minute, cases: cs})
+		jobs = append(jobs, job{name: fmt.Sprintf("hs-%02d", k), mode: "hs", memKB: 256 << 10, wall: 10 * time.Minute, cases: cs, procs: 2})
 	}
 	return jobs
 }
